@@ -16,22 +16,37 @@ PROPS["C14"]["level_text"] += " " + (
     "distance cache of the start of the block, then the IR handed to the callback replays to history ++ meta-block input "
     "byte for byte and num_bytes_encoded advances by exactly the meta-block length - no payload hypothesis. A concrete run "
     "(8 literals, static-dictionary word, 20 closing literals; IR = [bsl 0, lit 0 8, dict 4 0 4 5, lit 12 20]) meets every "
-    "hypothesis."
+    "hypothesis. Merged meta-blocks (merged_metablock_q29, recode_replays_input_q29_merged; lemmas BV/Lemmas/CbrOpen.lean, "
+    "CbrMerge.lean): encode.rs appends the commands of successive CreateBackwardReferences calls to one meta-block, the "
+    "last_insert_len pending after a call becoming the insert length of the next call's first command; `Merged` records ANY "
+    "sequence of such calls (per call any hasher type and state, the ring-buffer contents of that moment, the carried "
+    "distance cache and last_insert_len), each call being covered by the loop theorem in its local view (cbr_open: the "
+    "decoder's ring after a call IS the returned dist_cache) and embedded into the whole meta-block (openSteps_embed); the "
+    "closed array of the whole meta-block satisfies cmdOK, lockstep, CmdsWF and PayloadOK, hence the IR replays to the "
+    "input. NOT covered by `Merged`: extend_last_command, which encode_data runs between two merged calls when the "
+    "previous call ended exactly on a copy (last_insert_len = 0) and which may lengthen that last copy over the new input; "
+    "`Merged` describes the call sequences in which it changes nothing (always when literals are pending at the boundary). "
+    "A two-call run (24 + 8 bytes, 12 literals carried over) is the non-vacuity example."
 )
 PROPS["C14"]["level_note"] += " " + (
-    "Scope of the discharged payload hypothesis (C14Chain): quality 2-9, NPOSTFIX = NDIRECT = 0 (every non-FONT mode), ONE "
-    "CreateBackwardReferences call per logged meta-block (encode.rs may merge several calls into one meta-block: the "
-    "composition over calls is not stated), the chain's own hypotheses BlockOK (the ring buffer holds history ++ block "
+    "Scope of the discharged payload hypothesis (C14Chain): quality 2-9, NPOSTFIX = NDIRECT = 0 (every non-FONT mode), any "
+    "number of CreateBackwardReferences calls per logged meta-block as long as extend_last_command (un-modelled: it rewrites "
+    "copy_len_ and cmd_prefix_ of the last command at a call boundary with last_insert_len = 0 when the new input continues "
+    "that copy) leaves the last command alone (`Merged`; that encode_data threads the calls as `Merged.call` demands - "
+    "position = history + bytes searched so far, cache and last_insert_len handed on - is read off encode.rs, not derived "
+    "from w-stream's model), the chain's own hypotheses BlockOK (the ring buffer holds history ++ block "
     "from one window before the block: RingViewW, which ring_view_w proves from RingOK), OpsOK, DictFaithful (the "
     "looked-up static-dictionary slots agree with the word oracle; vacuous with use_dictionary off) and C14's OracleOK "
-    "for the SAME oracle. PayloadOK stays a hypothesis for quality 10/11 (Zopfli: C01zzzzy's model), FONT mode and merged "
-    "meta-blocks, and is judged there by the independent IR replay of engine `recoder` on every run."
+    "for the SAME oracle. PayloadOK stays a hypothesis for quality 10/11 (Zopfli: C01zzzzy's model), FONT mode and "
+    "meta-blocks in which extend_last_command lengthened a command, "
+    "and is judged there by the independent IR replay of engine `recoder` on every run."
 )
 PROPS["C14"]["assumptions"] = [
     ("PayloadOK: the RFC decoder run on the encoder's command array with the encoder's history reproduces the meta-block "
-     "input - PROVED for quality 2-9 / NPOSTFIX = NDIRECT = 0 / one CreateBackwardReferences call per meta-block "
-     "(payload_ok_q29, relative to C01Chain's BlockOK, OpsOK, DictFaithful); unproved (exercised) for quality 10/11, FONT "
-     "mode and meta-blocks merged from several calls")
+     "input - PROVED for quality 2-9 / NPOSTFIX = NDIRECT = 0, one call per meta-block (payload_ok_q29) or any number of "
+     "merged calls without an effective extend_last_command (merged_metablock_q29), relative to C01Chain's BlockOK (per "
+     "call), OpsOK, DictFaithful; unproved (exercised) for quality 10/11, FONT mode and commands lengthened by "
+     "extend_last_command")
     if a.startswith("PayloadOK:") else
     (a + "; inside the scope of C14Chain (quality 2-9, NPOSTFIX = NDIRECT = 0) CmdsWF is derived from cmdOK for the "
          "commands CreateBackwardReferences emits and from the constant fields of init_insert (cmds_wf_q29), with no "
